@@ -679,6 +679,13 @@ func (g *graph) compile(ctx context.Context, opt *graphCompileOptions) (*composa
 			return nil, fmt.Errorf("node[%s]'s input or output type cannot be inferred: it is not connected to any typed node", key)
 		}
 	}
+	// WithInputKey / WithOutputKey only fix the type a node shows to its neighbours: the type of the
+	// value a passthrough node passes on (and with it the node's generic helper) still has to be inferred
+	for key, node := range g.nodes {
+		if node.g == nil && node.cr != nil && (node.cr.inputType == nil || node.cr.outputType == nil) {
+			return nil, fmt.Errorf("node[%s]'s input or output type cannot be inferred: it is not connected to any typed node", key)
+		}
+	}
 
 	// toValidateMap isn't empty means there are nodes that cannot infer type
 	for _, v := range g.toValidateMap {
